@@ -3,11 +3,97 @@
 //! result: `N <feedlen> | L <off> <line|-> <col|-> ... | S <s> <e> <st> <en>|P ...`
 //! over all char-boundary offsets / spans of the concatenated text, plus
 //! one out-of-range offset.
+//! `D <plen> ; <code points>` and `G <code points> ; <spans>`: SpannedDiagnosticFormatter
+//! (lrpar/src/lib/diagnostics.rs), see `diag_case` / `spanned_case`.
 use gvh::util::*;
 use cfgrammar::{NewlineCache, Span};
 use lrlex::{DefaultLexerTypes, LRNonStreamingLexerDef, LexerDef};
 use lrpar::{LexError, LexParseError, Lexer, NonStreamingLexer};
+use lrpar::diagnostics::{DiagnosticFormatter, SpannedDiagnosticFormatter};
 use std::fmt::Write;
+
+/// A warning with caller-chosen spans, to reach the private `format_spanned`
+/// through the public `DiagnosticFormatter::format_warning`.
+struct Dup(Vec<Span>);
+impl std::fmt::Display for Dup {
+    fn fmt(&self, f: &mut std::fmt::Formatter<'_>) -> std::fmt::Result {
+        write!(f, "msg")
+    }
+}
+impl cfgrammar::Spanned for Dup {
+    fn spans(&self) -> &[Span] {
+        &self.0
+    }
+    fn spanskind(&self) -> cfgrammar::yacc::parser::SpansKind {
+        cfgrammar::yacc::parser::SpansKind::DuplicationError
+    }
+}
+
+fn res_hex(out: &mut String, tag: &str, key: &str, r: Result<String, String>) {
+    match r {
+        Ok(t) => write!(out, " | {} {} x{}", tag, key, gvh::common::hex(&t)).unwrap(),
+        Err(_) => write!(out, " | {} {} P", tag, key).unwrap(),
+    }
+}
+
+/// `D <plen> ; <code points>`: SpannedDiagnosticFormatter over the whole text:
+/// `prefixed_underline_span_with_text(prefix of plen dots, span, "msg", '^')` for every
+/// boundary span (plen = 0: `underline_span_with_text`), `file_location_msg` for every
+/// boundary and one offset past the end.
+fn diag_case(line: &str) -> String {
+    let mut it = line.splitn(2, ';');
+    let plen: usize = it.next().unwrap().trim().parse().expect("plen");
+    let text = cps_to_string(it.next().unwrap_or(""));
+    let path = std::path::PathBuf::from("f");
+    let mut out = String::new();
+    let mut bounds: Vec<usize> = text.char_indices().map(|(i, _)| i).collect();
+    bounds.push(text.len());
+    write!(out, "N {}", text.len()).unwrap();
+    let prefix = ".".repeat(plen);
+    for (i, &s) in bounds.iter().enumerate() {
+        for &e in &bounds[i..] {
+            let r = catch(std::panic::AssertUnwindSafe(|| {
+                let fmt = SpannedDiagnosticFormatter::new(&text, &path);
+                if plen == 0 {
+                    fmt.underline_span_with_text(Span::new(s, e), "msg".into(), '^')
+                } else {
+                    fmt.prefixed_underline_span_with_text(&prefix, Span::new(s, e), "msg".into(), '^')
+                }
+            }));
+            res_hex(&mut out, "U", &format!("{} {}", s, e), r);
+        }
+    }
+    for &off in bounds.iter().chain(std::iter::once(&(text.len() + 1))) {
+        let r = catch(std::panic::AssertUnwindSafe(|| {
+            let fmt = SpannedDiagnosticFormatter::new(&text, &path);
+            fmt.file_location_msg("m", Some(Span::new(off, off)))
+        }));
+        res_hex(&mut out, "F", &format!("{}", off), r);
+    }
+    out
+}
+
+/// `G <code points> ; s1 e1 s2 e2 ...`: `format_warning` (= the private `format_spanned`) of a
+/// DuplicationError-kind warning carrying these spans.
+fn spanned_case(line: &str) -> String {
+    let mut it = line.splitn(2, ';');
+    let text = cps_to_string(it.next().unwrap());
+    let nums: Vec<usize> = it
+        .next()
+        .unwrap_or("")
+        .split_whitespace()
+        .map(|t| t.parse().expect("offset"))
+        .collect();
+    let path = std::path::PathBuf::from("f");
+    let r = catch(std::panic::AssertUnwindSafe(|| {
+        let spans: Vec<Span> = nums.chunks(2).map(|p| Span::new(p[0], p[1])).collect();
+        let fmt = SpannedDiagnosticFormatter::new(&text, &path);
+        fmt.format_warning(Dup(spans))
+    }));
+    let mut out = String::new();
+    res_hex(&mut out, "W", "0", r);
+    out[3..].to_string()
+}
 
 /// NonStreamingLexer::{line_col, span_lines_str} and LexParseError::pp on the same
 /// text: every character lexes except 'X' (no rule) and 'Y' (rule without token id).
@@ -48,6 +134,12 @@ fn lexer_queries(out: &mut String, text: &str, bounds: &[usize]) {
 fn main() {
     gvh::quiet_panics();
     for_each_case(|line| {
+        if let Some(rest) = line.strip_prefix("D") {
+            return diag_case(rest);
+        }
+        if let Some(rest) = line.strip_prefix("G") {
+            return spanned_case(rest);
+        }
         let line = line.strip_prefix("T").unwrap_or(line);
         let chunks: Vec<String> = line.split(';').map(cps_to_string).collect();
         let text: String = chunks.concat();
